@@ -128,4 +128,59 @@ def executeObjX (v : List (Ext α)) (w : List α) (boundary : Bool) : Except Err
   filterWindowX v (w.map .fin) boundary false
 end filterX
 
+/-! ### The front ends with a weight list, over Python's numbers
+
+`track.operate(Operator.FILTER, af_in, weights, af_out)` and `filter_seq(track, weights, dim)` for a weight LIST, as `operate` /
+`seqLoop` / `filterSeq` of `Model/Filter.lean` but with `filterWindowX`: a track is `Sigs (Ext α)` (NaN is `none`, never `some nan`;
+an infinite value is `some pinf` / `some ninf`). The list is the same Python object at every dimension: it is divided by its total again
+at each call (`[1,0,-1]` becomes `[inf,nan,-inf]`, then `[nan,nan,nan]`). -/
+section frontX
+variable {α : Type} [Add α] [Mul α] [Div α] [OfNat α 0] [LT α] [DecidableLT α]
+
+/-- a stored value: NaN is `none` -/
+def toOpt : Ext α → Option (Ext α)
+  | .nan => none
+  | y => some y
+
+def ofOpt : Option (Ext α) → Ext α
+  | none => .nan
+  | some y => y
+
+/-- `track.operate(Operator.FILTER, af_in, weights, af_out)` for a weight list, in the order of the Python: normalisation in place
+(never raises), odd-window test, `createAnalyticalFeature(af_out)` (reserved name, empty track), the loops, `addListToAF`.
+Returns the list as the call leaves it, the output values and the track. -/
+def operateListX (t : Sigs (Ext α)) (afIn : String) (k : List (Ext α)) (afOut : String) :
+    Except Err (List (Ext α) × List (Ext α) × Sigs (Ext α)) :=
+  let k' := normalise k
+  if k'.length % 2 == 0 then .error .evenKernel
+  else if reservedName afOut then .error .feature
+  else if trackSize t == 0 then .error .emptyTrack
+  else
+    let t1 := createAF t afOut
+    match getSig t1 afIn with
+    | none => .error .feature
+    | some v =>
+      match filterWindowX (v.map ofOpt) k' false true with
+      | .error e => .error e
+      | .ok out => .ok (k', out, setSig t1 afOut (out.map toOpt))
+
+/-- the loop `for af in dim` of `filter_seq` with a weight list: a coordinate is filtered into the feature `temp` and copied back,
+any other name is filtered in place; the list is re-normalised at every turn -/
+def seqLoopListX : List String → List (Ext α) → Sigs (Ext α) → Except Err (List (Ext α) × Sigs (Ext α))
+  | [], k, t => .ok (k, t)
+  | af :: rest, k, t =>
+    if af == "x" ∨ af == "y" ∨ af == "z" then
+      match operateListX t af k "temp" with
+      | .error e => .error e
+      | .ok (k', out, t') => seqLoopListX rest k' (setSig t' af (out.map toOpt))
+    else
+      match operateListX t af k af with
+      | .error e => .error e
+      | .ok (k', _, t') => seqLoopListX rest k' t'
+
+/-- `filter_seq(track, weights, dim)` for a weight list (`dim` a list of names): a one-element list returns the track unchanged -/
+def filterSeqListX (t : Sigs (Ext α)) (k : List (Ext α)) (dim : List String) : Except Err (List (Ext α) × Sigs (Ext α)) :=
+  if k.length == 1 then .ok (k, t) else seqLoopListX dim k t
+end frontX
+
 end TV.Filter
